@@ -273,6 +273,28 @@ def main(tier: str) -> int:
         finally:
             JM.uniform = saved_uniform
 
+    # ---- SHADE's parameter generation called directly with the memories at their extremes (H_CR cells at 0 or 1, where half of the CR draws
+    #      are clipped to the border): every F in (0, 1], every CR in [0, 1], and F and CR are two arrays
+    from thefittest.optimizers import SHADE as _SHADE2
+    for hcr_, hf_ in ((0.0, 0.9), (1.0, 0.05), (0.0, 0.05), (0.5, 0.5)):
+        sg2 = _SHADE2(fitness_function=lambda x: np.sum(x, axis=1), iters=2, pop_size=12, left_border=-1.0, right_border=1.0, num_variables=2)
+        from thefittest.utils.random import numba_seed as _ns
+        _ns(chk.seed * 10 + 7)
+        sg2._H_F = np.full(sg2._H_size, hf_, dtype=np.float64)
+        sg2._H_CR = np.full(sg2._H_size, hcr_, dtype=np.float64)
+        try:
+            F2, CR2 = sg2._generate_F_CR()
+            F2, CR2 = np.asarray(F2, dtype=np.float64), np.asarray(CR2, dtype=np.float64)
+        except Exception as e:  # noqa
+            chk.fail("SHADE's parameter generation raises", {"H_F": hf_, "H_CR": hcr_, "error": repr(e)[:160]}, {"optimizer": "SHADE", "clause": "raises"})
+            continue
+        chk.count("shade_generate_direct")
+        chk.case(("shade_generate", hcr_, hf_))
+        if np.any(~(F2 > 0)) or np.any(F2 > 1) or np.any(~(CR2 >= 0)) or np.any(CR2 > 1) or np.shares_memory(F2, CR2) or len(F2) != 12 or len(CR2) != 12:
+            chk.fail("a drawn control parameter is outside its stated range",
+                     {"call": "SHADE._generate_F_CR with every H_F cell = %g and every H_CR cell = %g" % (hf_, hcr_), "F": F2.tolist(), "CR": CR2.tolist(),
+                      "F_and_CR_share_memory": bool(np.shares_memory(F2, CR2))}, {"optimizer": "SHADE", "clause": "range", "nan": False})
+
     # ---- runs
     runs = []
     sid = 0
